@@ -921,7 +921,13 @@ class Gen:
         state = {k: v for k, v in state.items() if "<state>" + k in used}
         run = ({"max_steps": rng.randint(1, 5)} if rng.random() < 0.7
                else {"t_end": rng.choice([1.0, 2.0, 0.5])})
-        return {"phases": phases, "initial": names[0], "state": state, "t0": rng.choice([0.0, 0.5, 1]),
+        t0 = rng.choice([0.0, 0.5, 1])
+        if rng.random() < 0.12:
+            # runs that end at time zero (integration up to the origin, or a run of no steps at all), bounded
+            # by a step count as well
+            run = {"t_end": rng.choice([0, 0.0]), "max_steps": rng.randint(2, 6)}
+            t0 = rng.choice([-1.0, -0.5, -0.5, 0.0, 0.5])
+        return {"phases": phases, "initial": names[0], "state": state, "t0": t0,
                 "dt0": rng.choice([0.5, 0.25, 1.0]), "funcs": self.funcs, "run": run, "event_cap": 60}
 
 
